@@ -93,6 +93,11 @@ def _run(ctx):
             raise vlib.Inconclusive("VACUOUS", "%s emitted no edges" % cfg)
         ctx.add("edges_emitted", len(r.traces))
         replay(ctx, binary, behs, shift, "%s (shift %d)" % (cfg, shift))
+        if shift == 0:
+            # the same behaviours with amounts of other magnitudes (v -> v*2^k stays a homomorphism and, with
+            # |v| <= 4, stays far from the int64 bounds): amounts around 2^31..2^33 and 2^47..2^49
+            for k in (31, 47):
+                replay(ctx, binary, behs, k, "%s (shift %d)" % (cfg, k))
         ctx.sample(behs[len(behs) // 2], limit=3)
     r = done["sim"]
     vlib.require_model_ok(r, "Coins_sim")
@@ -103,6 +108,7 @@ def _run(ctx):
             raise vlib.Inconclusive("VACUOUS", "action %s never replayed to completion" % a)
     ctx.cov["exhaustive"] = True
     ctx.assumptions += [
+        "identity-embedding behaviours are replayed at amounts v, v*2^31 and v*2^47 (mid-range magnitudes)",
         "embedding v -> v*2^60 is an exact homomorphism for + and - : a result leaves -8..7 iff it overflows int64",
         "operands are denomination-sorted and duplicate-free (Add's stated precondition); amounts may be zero or negative",
         "comparison helpers: verdict on valid sets only; IsEqual's documented denomination-mismatch panic is read as 'not equal'",
